@@ -1079,6 +1079,8 @@ class Proto:
         if ex:
             if record:
                 self.events[('exec', self._evn(fn), ex)].add(st.T)
+                if st.T == 'H' and st.P is not None:
+                    self.events[('exec_P', self._evn(fn), ex)].add(self.closure_NO(st.P))
             if st.T == 'N' and not (fn.name in self.requires_held):
                 # the function runs jobs without having acquired: it needs the token from its caller
                 self.requires_held.add(fn.name)
